@@ -347,7 +347,7 @@ impl Encode for ResponsePdu<'_> {
 
 impl Encode for ExceptionResponse {
     fn encode(&self, buf: &mut [u8]) -> Result<usize> {
-        if buf.is_empty() {
+        if buf.len() < 2 {
             return Err(Error::BufferSize);
         }
         let [code, ex]: [u8; 2] = (*self).into();
